@@ -28,6 +28,7 @@
 #ifndef OPNMIDI_DISABLE_MIDI_SEQUENCER
 #include "midi_sequencer.hpp"
 #endif
+#include "opnmidi_verif.hpp"
 
 /* Unify MIDI player casting and interface between ADLMIDI and OPNMIDI */
 #define GET_MIDI_PLAYER(device) reinterpret_cast<OPNMIDIplay *>((device)->opn2_midiPlayer)
@@ -1171,6 +1172,7 @@ OPNMIDI_EXPORT int opn2_playFormat(OPN2_MIDIPlayer *device, int sampleCount,
 
     while(left > 0)
     {
+        OPN_VERIF_YIELD("opn2_playFormat:period");
         const double eat_delay = setup.delay < setup.maxdelay ? setup.delay : setup.maxdelay;
         if(hasSkipped)
         {
@@ -1264,6 +1266,7 @@ OPNMIDI_EXPORT int opn2_generateFormat(struct OPN2_MIDIPlayer *device, int sampl
 
     while(left > 0)
     {
+        OPN_VERIF_YIELD("opn2_generateFormat:period");
         if(delay <= 0.0)
             delay = double(left / 2) / double(setup.PCM_RATE);
         const double eat_delay = delay < setup.maxdelay ? delay : setup.maxdelay;
